@@ -1,15 +1,16 @@
 \* generated by gensync.py - edit there
-SPECIFICATION Spec
+SPECIFICATION PSpec
 CONSTANTS
- Clients = {1, 2, 3}
- Creators = {1}
- Subscribers = {2}
+ Clients = {1, 2}
+ Creators = {}
+ Subscribers = {}
  OtherType = {}
  MaxOps = 1
- MaxSends = 5
+ MaxSends = 2
  MaxServes = 1
  MaxApplies = 1
  Faults = FALSE
+ Mutations = {"unknownDuid", "staleCp", "futureCp", "futureCseq", "gapOps", "repeatOps", "readOnlyPush", "readOnlyCreate", "unregisteredClient", "wrongType", "allBits", "twoPacks", "noPacks", "unknownCollection", "emptyKey", "subscribeBitAgain", "createBitAgain"}
 INVARIANT LogNoRepeats
 INVARIANT LogEndRecorded
 INVARIANT PerClientOrder
@@ -20,5 +21,6 @@ INVARIANT ClientCpWithinLog
 INVARIANT QuiescentAgreement
 INVARIANT OneDatatype
 PROPERTY CpMonotone
-VIEW StateView
+VIEW PStateView
+ACTION_CONSTRAINT EdgeDump
 CHECK_DEADLOCK FALSE
